@@ -132,6 +132,18 @@ def run(ctx):
             data = data.encode('utf-8', 'surrogatepass')
         cases.append('(case d%d decode %s x%s)' % (n, which, data.hex()))
 
+    # every prefix of texts that use every lexical construct (comments of both kinds, strings with escapes, long operators): an input may
+    # end anywhere - inside a comment, an escape, a multi-byte character, an operator
+    LEXY_POLICY = '@a("x\\n\\u{e9}") /* c * / */ permit ( principal == A::B::"é\\"", action in [Action::"a"], resource ) // é\nwhen { 1 <= 2 && !(context.a has b) || "\\x41*" like "a\\**" };'
+    LEXY_SCHEMA = '// é\nnamespace A::B { /* c ** / */ @d("x\\"") entity E in [F] = { "k\\n": Set<__cedar::Long>, o?: T } tags String; entity F enum ["a"]; type T = { a: Long }; action "v" in [w] appliesTo { principal: [E], resource: [F], context: T }; action w; } /* end **/'
+    for i in range(1, len(LEXY_POLICY.encode()) + 1):
+        add('policy-text', LEXY_POLICY.encode()[:i])
+        add('stream', LEXY_POLICY.encode()[:i])
+    for i in range(1, len(LEXY_SCHEMA.encode()) + 1):
+        add('schema-text', LEXY_SCHEMA.encode()[:i])
+    for tail in ('/*', '/**', '/* *', '/* x *', '//', '/', '"', '"\\', '"\\u', '"\\u{', '"\\u{e', '"\\x', '"\\x4', '@', '@a(', ':', '::', '<', '=', '!', '&', '|', '-', '\xc3', '\xe6\x97', '\xf0\x9f\x98'):
+        for base, which in ((LEXY_POLICY, 'policy-text'), (LEXY_SCHEMA, 'schema-text'), ('', 'policy-text'), ('', 'schema-text'), ('A::', 'uid-text')):
+            add(which, base.encode() + tail.encode('latin-1'))
     per = 6 if quick else 60
     for t in ptext:
         tb = t.encode()
